@@ -12,6 +12,9 @@
 (*          7 str with control / non-BMP characters                        *)
 (*          10 str '__tuple__'   11 near miss of the marker                *)
 (*          12 str 'n_:<int>'    13 str '_type'                            *)
+(*          14 MISSING_VALUE: only as the value of an object field (a      *)
+(*             PARTIAL object; its JSON omits the field and it can only be *)
+(*             loaded with allow_partial=True, which pg.load always uses)  *)
 (*          20 opaque convertible (value spec, DNA, DNASpec, function,     *)
 (*             class, ... : encodes itself, trusted to its own to_json)    *)
 (*          61 62 type names of the classes A B   63 an unknown type name  *)
@@ -27,6 +30,7 @@
 EXTENDS Integers, Sequences, FiniteSets, TLC
 
 MARKER == 10
+MISSING == 14
 TYPEKEY == 35
 Leaf(a) == [t |-> "leaf", a |-> a, ks |-> <<>>, xs |-> <<>>]
 ListV(xs) == [t |-> "list", a |-> 0, ks |-> <<>>, xs |-> xs]
@@ -53,7 +57,11 @@ Enc(v, form) ==
     [] v.t = "list" -> ListV(kids)
     [] v.t = "tuple" -> ListV(<<Leaf(MARKER)>> \o kids)
     [] v.t = "dict" -> DictV([i \in 1..Len(v.ks) |-> EncKey(v.ks[i], form)], kids)
-    [] v.t = "obj" -> DictV(<<TYPEKEY>> \o v.ks, <<Leaf(TypeName(v.a))>> \o kids)
+    [] v.t = "obj" ->
+         \* fields whose value is MISSING_VALUE are not written
+         LET present == SelectSeq([i \in 1..Len(v.ks) |-> i], LAMBDA i : v.xs[i] # Leaf(MISSING)) IN
+         DictV(<<TYPEKEY>> \o [j \in 1..Len(present) |-> v.ks[present[j]]],
+               <<Leaf(TypeName(v.a))>> \o [j \in 1..Len(present) |-> kids[present[j]]])
 
 IndexOf(ks, k) == CHOOSE i \in 1..Len(ks) : ks[i] = k
 RECURSIVE Dec(_, _)
@@ -77,7 +85,12 @@ Dec(j, form) ==
                rest == [i \in 1..(Len(ks) - 1) |-> IF i < p THEN i ELSE i + 1]
                fks == [i \in 1..(Len(ks) - 1) |-> ks[rest[i]]]
                fxs == [i \in 1..(Len(ks) - 1) |-> kids[rest[i]]]
-           IN IF tn.t = "leaf" /\ tn.a \in {61, 62} /\ fks = Fields(tn.a - 60) THEN ObjV(tn.a - 60, fxs) ELSE Err
+               \* loading with allow_partial=True: declared fields that are absent come back as MISSING_VALUE
+               fill(c) == [i \in 1..Len(Fields(c)) |->
+                             IF \E m \in 1..Len(fks) : fks[m] = Fields(c)[i]
+                             THEN fxs[CHOOSE m \in 1..Len(fks) : fks[m] = Fields(c)[i]] ELSE Leaf(MISSING)]
+           IN IF tn.t = "leaf" /\ tn.a \in {61, 62} /\ \A m \in 1..Len(fks) : \E i \in 1..Len(Fields(tn.a - 60)) : Fields(tn.a - 60)[i] = fks[m]
+              THEN ObjV(tn.a - 60, fill(tn.a - 60)) ELSE Err
          ELSE DictV(ks, kids)
 
 RoundTrip(v, form) == Dec(Enc(v, form), form) = v
